@@ -37,7 +37,12 @@ def one(sid):
     wt = tempfile.mkdtemp(prefix="seedrv-", dir="/var/tmp")
     out = tempfile.mkdtemp(prefix="seedrv-out-", dir="/var/tmp")
     try:
-        if sh(["git", "-C", "/repo", "worktree", "add", "-q", "--detach", "--force", wt, "HEAD"]).returncode:
+        import time
+        for attempt in range(6):       # concurrent `git worktree add` calls contend for a lock
+            if sh(["git", "-C", "/repo", "worktree", "add", "-q", "--detach", "--force", wt, "HEAD"]).returncode == 0:
+                break
+            time.sleep(1 + attempt)
+        else:
             rec["error"] = "worktree"
             return sid, rec
         rec["demo_without_change_exit"] = demo(d, wt)
